@@ -532,6 +532,10 @@ func genFilt(r *vlib.Rand) Filt {
 	case 1, 2:
 		f.Sel = 1
 		n := 1 + r.Intn(2)
+		if r.Chance(12) {
+			n = 0 // FilterKeys(<empty, non-nil>): must select nothing
+			f.Keys = []int{}
+		}
 		m := map[int]bool{}
 		for len(m) < n {
 			m[1+r.Intn(6)] = true
@@ -794,6 +798,9 @@ func progTags(progs map[int]Prog, tg tags) {
 				}
 			}
 			tg[[]string{"fetch-all", "fetch-keys", "fetch-index"}[d.F.Sel]] = true
+			if d.F.Sel == 1 && len(d.F.Keys) == 0 {
+				tg["fetch-empty-nonnil-keyset"] = true
+			}
 			if d.F.Label >= 0 {
 				tg["filter-label"] = true
 			}
@@ -1023,6 +1030,9 @@ func TestGen(t *testing.T) {
 		}
 		runChurn(c, id, vlib.Scale(100, 400))
 	}
+
+	// ---- joined shapes (join_test.go)
+	id = runJoinFamilies(c, root, id)
 
 	// ---- class C: overlapping keys (outside the property's hypothesis): correspondence only
 	nC := vlib.Scale(10, 150)
